@@ -59,8 +59,11 @@ func analyseHandleConn(w *World) *connInfo {
 			switch calleeName(c) {
 			case "headers.ReadHeaderInfo":
 				ci.hdrCall = c
-			case "io.ReadFull":
-				fulls = append(fulls, c)
+			case "io.ReadFull", "io.ReadAtLeast", "bufio.Reader.Read", "io.Reader.Read", "bufio.Reader.Peek", "bufio.Reader.Discard", "bufio.Reader.ReadByte":
+				// any read from the connection inside the frame loop (M3 insists on io.ReadFull)
+				if inLoop(b) {
+					fulls = append(fulls, c)
+				}
 			case "motion.MotionProcessor.Reset":
 				ci.resetCall = c
 			case "motion.MotionProcessor.Process":
@@ -125,6 +128,13 @@ func propC14(w *World, r *Report) {
 		return
 	}
 	e := newTermEnv(w)
+	// ---- M3: all frame reads are io.ReadFull (exact-length, segmentation proof)
+	for i, c := range []*ssa.Call{ci.probe, ci.rest} {
+		r.Check(calleeName(c) == "io.ReadFull", "M3", fmt.Sprintf("frame read #%d is io.ReadFull (returns exactly the requested bytes however the stream is segmented)", i+1), w.InstrPos(c), calleeName(c))
+	}
+	if calleeName(ci.probe) != "io.ReadFull" || calleeName(ci.rest) != "io.ReadFull" {
+		return
+	}
 	// ---- M3: single reader
 	rd := unwrapIface(ci.probe.Call.Args[0])
 	rd2 := unwrapIface(ci.rest.Call.Args[0])
